@@ -47,6 +47,15 @@ package ice
 //@   site call HandleBindingRequest#1 assert C02 C06 a-refused-peer-reflexive-candidate-ends-the-request: prflxTried ==> prflxTaken
 //@   site call handleRoleConflict#1 assert C02 C06 a-refused-peer-reflexive-candidate-ends-the-request-before-the-role-test: prflxTried ==> prflxTaken
 //@   site call NewCandidatePeerReflexive#1 assert C02 C17 the-peer-reflexive-candidate-stands-for-the-source-of-the-request-over-the-local-transport: arg0.RelAddr == "" && arg0.RelPort == 0
+//@   ghostvar ntOK bool = false
+//@   ghostvar prioOK bool = false
+//@   ghostvar builtOK bool = false
+//@   site call determineNetworkType#1 ghost ntOK := result1 == nil
+//@   site call GetFrom#1 ghost prioOK := result == nil
+//@   site call NewCandidatePeerReflexive#1 assert C02 C17 built-only-for-a-source-whose-network-type-could-be-determined: ntOK
+//@   site call NewCandidatePeerReflexive#1 assert C17 takes-its-priority-from-the-priority-attribute-of-the-request-when-there-is-one: (prioOK ==> arg0.Priority == prio) && (!prioOK ==> arg0.Priority == 0)
+//@   site call NewCandidatePeerReflexive#1 ghost builtOK := result1 == nil
+//@   site call addRemoteCandidate#1 assert C02 C06 only-a-candidate-that-could-be-built-is-added: builtOK
 //@   site call handleRoleConflict#1 assert conflict-only-when-authenticated: a.gUserOK && a.gIntegOK
 //@   site call HandleBindingRequest#1 assert selector-only-when-authenticated: a.gUserOK && a.gIntegOK
 //@   site call GetFrom#2 ghost a.gTbOK := result == nil
